@@ -115,7 +115,6 @@ def build_harness(features=None):
     cov = os.environ.get("VERIF_COVERAGE_DIR")
     if cov:
         # tools/covaudit.sh: an instrumented build in a scratch directory (never used by the registered commands)
-        cmd = ["cargo", "+nightly", "build", "--offline"]
         tdir = os.path.join(cov, "target-harness")
         env = dict(ENV, CARGO_TARGET_DIR=tdir, RUSTFLAGS="-C instrument-coverage")
     if features:
@@ -140,7 +139,6 @@ def build_rocfl_bin():
     if os.environ.get("VERIF_COVERAGE_DIR"):
         tdir = os.path.join(os.environ["VERIF_COVERAGE_DIR"], "target-rocfl")
         env = dict(ENV, CARGO_TARGET_DIR=tdir, RUSTFLAGS="-C instrument-coverage")
-        cargo = ["cargo", "+nightly"]
     rc, log = sh(cargo + ["build", "--offline", "--bin", "rocfl", "--no-default-features"], cwd=REPO, timeout=3600, env=env)
     if rc != 0:
         raise BuildError("rocfl build failed\n" + log[-3000:])
